@@ -68,9 +68,33 @@ impl IdSpec {
                 let mut o = [0u8; 16];
                 o[..8].copy_from_slice(&s.to_le_bytes());
                 o[8..].copy_from_slice(&splitmix64(s).to_le_bytes());
+                // Special forms a decoder might be tempted to normalise.
+                match self.ip_seed % 8 {
+                    0 => {
+                        // IPv4-mapped ::ffff:a.b.c.d
+                        o[..10].fill(0);
+                        o[10] = 0xff;
+                        o[11] = 0xff;
+                    }
+                    1 => o[..12].fill(0), // IPv4-compatible ::a.b.c.d
+                    2 => {
+                        o.fill(0);
+                        o[15] = (self.ip_seed >> 8) as u8 & 1; // :: or ::1
+                    }
+                    3 => {
+                        // NAT64 64:ff9b::a.b.c.d
+                        o[..12].copy_from_slice(&[0, 0x64, 0xff, 0x9b, 0, 0, 0, 0, 0, 0, 0, 0]);
+                    }
+                    _ => {}
+                }
                 WIp::V6(o)
             } else {
-                WIp::V4((s as u32).to_le_bytes())
+                match self.ip_seed % 8 {
+                    0 => WIp::V4([0, 0, 0, 0]),
+                    1 => WIp::V4([255, 255, 255, 255]),
+                    2 => WIp::V4([127, 0, 0, 1]),
+                    _ => WIp::V4((s as u32).to_le_bytes()),
+                }
             },
             // distinct ports keep short ids distinct
             port: self.port.wrapping_add(uniq as u16),
